@@ -213,6 +213,43 @@ def explain_known(a, m, f, c):
     return None
 
 
+def drop_kind(f, k):
+    f2 = dict(f)
+    if k in ('name', 'uuid', 'in_tree'):
+        f2[k] = None
+    elif k == 'member_of':
+        f2['member_of'], f2['forbidden_aggs'] = [], []
+    elif k == 'required':
+        f2['required'], f2['forbidden'] = [], []
+    else:
+        f2['resources'] = []
+    return f2
+
+
+def minimal_kinds(a, m, f, kind):
+    """drop filter kinds while the same kind of disagreement (extra / missing / status) persists"""
+    def same(c):
+        if kind == 'status':
+            return c['status_real'] != c['status_lean']
+        if c['status_real'] != 200 or c['status_lean'] != 200:
+            return False
+        if kind == 'extra':
+            return bool(set(c['real']) - set(c['lean']))
+        return bool(set(c['lean']) - set(c['real']))
+    cur = f
+    for k in KINDS:
+        if k not in kinds_of(cur):
+            continue
+        f2 = drop_kind(cur, k)
+        try:
+            c2 = compare(a, m, f2)
+        except Exception:
+            continue
+        if same(c2) and not explain_known(a, m, f2, c2):
+            cur = f2
+    return cur
+
+
 def kinds_of(f):
     ks = []
     for k in ('name', 'uuid', 'in_tree'):
@@ -299,12 +336,17 @@ def case(args):
                 if known:
                     sigs = known
                 elif c['status_real'] != c['status_lean']:
-                    sigs = ['c13:status:%s-expected-%s:%s' % (c['status_real'], c['status_lean'], '+'.join(forms_of(f, c['url'])))]
+                    f = minimal_kinds(a, m, f, 'status')
+                    c = compare(a, m, f)
+                    sigs = ['c13:status:%s-expected-%s:%s' % (c['status_real'], c['status_lean'], '+'.join(kinds_of(f)))]
                 else:
                     extra = sorted(set(c['real']) - set(c['lean']))
                     missing = sorted(set(c['lean']) - set(c['real']))
                     kind = 'extra' if extra else ('missing' if missing else 'duplicate')
-                    sigs = ['c13:%s:%s:%s' % (kind, '+'.join(kinds_of(f)), '+'.join(forms_of(f, c['url'])))]
+                    if kind != 'duplicate':
+                        f = minimal_kinds(a, m, f, kind)
+                        c = compare(a, m, f)
+                    sigs = ['c13:%s:%s' % (kind, '+'.join(kinds_of(f)))]
                 for sig in sigs:
                     out['violations'].append({
                         'kind': 'monitor', 'signature': sig,
